@@ -522,6 +522,110 @@ theorem C09_timer_from_first_poll_fails : ¬ TimerFromFirstPollMeetsSpec := by
   revert this
   decide
 
+/-! ### Several calls through one middleware: calls are independent -/
+
+/-- `GrpcTimeout::call` leaves the middleware as it found it, and the sleep it picks is a function
+of the configured timeout and THIS request's header only. (Transcription lemma: it pins the
+model's shape for the `mw` / `chan` / `conn` correspondence runs.) -/
+theorem C09_middleware_is_stateless (m : Mw) (header : Option Nat) :
+    (m.call header).1 = m ∧ (m.call header).2 = effective header m.configured := ⟨rfl, rfl⟩
+
+private theorem clientCall_eq (c e : Option Nat) (r : Reply) :
+    clientCall c e r = clientCallWith (effective c e) r := rfl
+
+/-- For EVERY sequence of calls on one `Channel` (any length, any caller deadlines, any peer
+replies, with or without `Endpoint::timeout`) each call's outcome and completion time is the
+single-call model's — what a fresh channel would give — whatever calls came before it. -/
+theorem C09_calls_are_independent (endpoint : Option Nat) (calls : List (Option Nat × Reply)) :
+    channelCalls ⟨endpoint⟩ calls = calls.map fun c => clientCall c.1 endpoint c.2 := by
+  induction calls with
+  | nil => rfl
+  | cons c cs ih =>
+    obtain ⟨h, r⟩ := c
+    simp only [channelCalls, channelCallsBy, Mw.call, List.map_cons, clientCall_eq] at ih ⊢
+    rw [ih]
+
+/-- The same said for one call after an arbitrary history: the calls before it change nothing
+about it, and it changes nothing about them. -/
+theorem C09_call_after_any_history (endpoint : Option Nat) (before : List (Option Nat × Reply))
+    (caller : Option Nat) (r : Reply) :
+    channelCalls ⟨endpoint⟩ (before ++ [(caller, r)]) =
+      channelCalls ⟨endpoint⟩ before ++ [clientCall caller endpoint r] := by
+  simp [C09_calls_are_independent]
+
+/-- Overlapping calls reach `GrpcTimeout::call` in SOME order (the `Buffer` worker's queue): the
+outcomes do not depend on it — reordering the dispatches reorders the outcomes and nothing else. -/
+theorem C09_dispatch_order_is_irrelevant (endpoint : Option Nat)
+    (calls calls' : List (Option Nat × Reply)) (h : calls.Perm calls') :
+    (channelCalls ⟨endpoint⟩ calls).Perm (channelCalls ⟨endpoint⟩ calls') := by
+  rw [C09_calls_are_independent, C09_calls_are_independent]
+  exact h.map _
+
+/-- Against the independent oracle: calls on one `Channel` to a peer that enforces nothing and
+answers call `i` after `lᵢ` (or never) are each cut, or not, exactly as `Spec.Timeout.expectedEach`
+demands: by the call's OWN deadline and `Endpoint::timeout`, nothing else. -/
+theorem C09_channel_calls_each_meet_spec (endpoint : Option Nat)
+    (calls : List (Option Nat × Option Nat)) :
+    (channelCalls ⟨endpoint⟩ (calls.map fun c => (c.1, plainPeer c.2))).map asExpect =
+      Spec.Timeout.expectedEach endpoint calls := by
+  rw [C09_calls_are_independent]
+  simp [Spec.Timeout.expectedEach, C09_client_cutoff_plain_peer]
+
+/-- The middleware alone (one `GrpcTimeout` value called again and again) around something that
+answers call `i` after `lᵢ`, or never. -/
+theorem C09_middleware_calls_each_meet_spec (configured : Option Nat)
+    (calls : List (Option Nat × Option Nat)) :
+    (mwCalls ⟨configured⟩ (calls.map fun c => (c.1, answer c.2))).map asExpect =
+      Spec.Timeout.expectedEach configured calls := by
+  induction calls with
+  | nil => rfl
+  | cons c cs ih =>
+    obtain ⟨h, l⟩ := c
+    simp only [mwCalls, mwCallsBy, Mw.call, List.map_cons, Spec.Timeout.expectedEach] at ih ⊢
+    rw [ih]
+    congr 1
+    exact C09_stage_meets_spec h configured l
+
+/-- Server side, any number of requests with any grpc-timeout headers on ONE long-lived connection
+of `transport::Server` (with or without `Server::timeout`): each handler is cut by its own
+request's header and `Server::timeout`, nothing else. -/
+theorem C09_connection_requests_each_meet_spec (configured : Option Nat)
+    (reqs : List (Option Nat × Option Nat)) :
+    (connCalls ⟨configured⟩ reqs).map asExpect = Spec.Timeout.expectedEach configured reqs := by
+  simp only [connCalls, connCallsBy, Mw.call, Spec.Timeout.expectedEach, List.map_map]
+  apply List.map_congr_left
+  intro q _
+  exact C09_stage_meets_spec q.1 configured q.2
+
+/-- NOT the code (what seed C09e turns it into): a middleware that keeps the first header it saw
+as its configured timeout.  TARGET statement for it: -/
+def StickyCallsMeetSpec : Prop :=
+  ∀ (endpoint : Option Nat) (calls : List (Option Nat × Option Nat)),
+    (channelCallsBy Mw.callSticky ⟨endpoint⟩ (calls.map fun c => (c.1, plainPeer c.2))).map asExpect =
+      Spec.Timeout.expectedEach endpoint calls
+
+/-- Witness (ms; the harness corpus has it in ns): no `Endpoint::timeout`; a first call with a
+100 ms deadline that is answered after 50 ms; then a call with NO deadline answered after 350 ms —
+the sticky middleware cuts it at 100 although nothing says so. -/
+theorem C09_sticky_first_header_fails : ¬ StickyCallsMeetSpec := by
+  intro h
+  have := h none [(some 100, some 50), (none, some 350)]
+  revert this
+  decide
+
+/-- Why no single-call case can see the difference: for ONE call the sticky middleware picks the
+same sleep as the code, for every header and configuration. -/
+theorem C09_sticky_single_call_agrees (m : Mw) (header : Option Nat) :
+    (m.callSticky header).2 = (m.call header).2 := by
+  obtain ⟨c⟩ := m
+  cases header <;> cases c <;> simp [Mw.callSticky, Mw.call, effective]
+
+/-- Why it cannot be seen on the server either: every request runs on a throw-away clone of the
+connection's stack, so what `call` wrote is never read. -/
+theorem C09_sticky_invisible_per_request_clone (m : Mw) (reqs : List (Option Nat × Option Nat)) :
+    connCallsBy Mw.callSticky m reqs = connCalls m reqs := by
+  simp [connCalls, connCallsBy, C09_sticky_single_call_agrees]
+
 /-! ### What travels -/
 
 private theorem chosen_spec (d : Nat) (vu : Nat × U) (h : encodeVU d = some vu) :
@@ -643,5 +747,11 @@ example : latePoll (some 100) (some 350) 300 = Done.timeout 300 :=
 example : latePoll (some 100) (some 250) 300 = Done.inner 300 := by decide   -- the window: either is acceptable
 example : lateCutLazy (some 100) (answer (some 350)) 300 = Done.inner 350 := by decide
 example : endToEndLate none (some 100) none (some 350) 300 = Done.timeout 300 := by decide
+example : channelCalls ⟨none⟩ [(some 100, plainPeer (some 50)), (none, plainPeer (some 350))] =
+    [Done.inner 50, Done.inner 350] := by decide
+example : channelCallsBy Mw.callSticky ⟨none⟩ [(some 100, plainPeer (some 50)), (none, plainPeer (some 350))] =
+    [Done.inner 50, Done.timeout 100] := by decide
+example : [(some 100, plainPeer (some 50)), (none, plainPeer none)].Perm
+    [(none, plainPeer none), (some 100, plainPeer (some 50))] := List.Perm.swap _ _ _
 
 end C09
